@@ -10,6 +10,7 @@ import hashlib
 import os
 import re
 import shutil
+import stat
 import subprocess
 import vlib
 
@@ -104,7 +105,8 @@ def fsb(s):
 
 
 def snapshot(root, skip=()):
-    """{relative path: (kind, sha1/size or None, mtime ns)} for everything below root (names as latin-1 str, see fsb)."""
+    """{relative path: (kind, content or None, mtime ns)} for everything below root.  kind: 'dir', 'file' (regular file, content =
+    bytes), 'symlink' (content = the link target as bytes, never followed), 'fifo' / 'special' (never opened), 'unreadable'.  Names are latin-1 str (see fsb)."""
     snap = {}
     rootb = fsb(root)
     R = lambda p: os.path.relpath(p, rootb).decode('latin-1')
@@ -115,20 +117,42 @@ def snapshot(root, skip=()):
             continue
         for dn in dns:
             p = os.path.join(dp, dn)
-            snap[R(p)] = ('dir', None, None)
+            if os.path.islink(p):
+                # a symbolic link to a directory: os.walk lists it with the directories (and does not descend)
+                snap[R(p)] = ('symlink', os.fsencode(os.readlink(p)), os.lstat(p).st_mtime_ns)
+            else:
+                snap[R(p)] = ('dir', None, None)
         for fn in fns:
             p = os.path.join(dp, fn)
             try:
                 st = os.lstat(p)
-                data = open(p, 'rb').read()
-                snap[R(p)] = ('file', data, st.st_mtime_ns)
+                if stat.S_ISLNK(st.st_mode):
+                    snap[R(p)] = ('symlink', os.fsencode(os.readlink(p)), st.st_mtime_ns)
+                elif stat.S_ISFIFO(st.st_mode):
+                    snap[R(p)] = ('fifo', None, st.st_mtime_ns)
+                elif not stat.S_ISREG(st.st_mode):
+                    snap[R(p)] = ('special', None, st.st_mtime_ns)
+                else:
+                    data = open(p, 'rb').read()
+                    snap[R(p)] = ('file', data, st.st_mtime_ns)
             except OSError:
                 snap[R(p)] = ('unreadable', None, None)
     return snap
 
 
+def _copy_entry(src, dst):
+    """copy_function for copytree: a FIFO is recreated, everything else copied with its times."""
+    if stat.S_ISFIFO(os.lstat(src).st_mode):
+        os.mkfifo(dst)
+        st = os.lstat(src)
+        os.utime(dst, ns=(st.st_atime_ns, st.st_mtime_ns))
+        return dst
+    return shutil.copy2(src, dst)
+
+
 class Scenario:
-    """A sandbox: `tree` maps relative paths to bytes (files) or None (directories)."""
+    """A sandbox: `tree` maps relative paths to bytes (files), None (directories), ('symlink', target) (a symbolic link; `@R@` in the
+    target is the sandbox root) or ('fifo',) (a named pipe)."""
 
     def __init__(self, tools, config, tree, stdin=None, args=(), env=None, devmap=(), mtimes=None, stdin_file=False):
         self.tools = tools
@@ -145,6 +169,14 @@ class Scenario:
             p = os.path.join(fsb(self.root), fsb(rel))
             if data is None:
                 os.makedirs(p, exist_ok=True)
+            elif isinstance(data, tuple):
+                os.makedirs(os.path.dirname(p), exist_ok=True)
+                if data[0] == 'symlink':
+                    os.symlink(data[1].replace('@R@', self.root), p)
+                elif data[0] == 'fifo':
+                    os.mkfifo(p)
+                else:
+                    raise ValueError('unknown tree entry %r' % (data,))
             else:
                 os.makedirs(os.path.dirname(p), exist_ok=True)
                 with open(p, 'wb') as fh:
@@ -158,18 +190,18 @@ class Scenario:
             for i, rel in enumerate(sorted(r for r, d in tree.items() if d is not None)):
                 mtimes[rel] = (1600000000 + 86400 * i) * 10**9 + 123456789 + i
         for rel, t in (mtimes or {}).items():
-            os.utime(os.path.join(fsb(self.root), fsb(rel)), ns=(t, t))
+            os.utime(os.path.join(fsb(self.root), fsb(rel)), ns=(t, t), follow_symlinks=False)
         os.makedirs(os.path.join(self.root, 'tmp'), exist_ok=True)
         os.makedirs(os.path.join(self.root, 'home'), exist_ok=True)
         with open(os.path.join(self.root, 'conf'), 'w', encoding='latin-1') as fh:
             fh.write(self.config)
         self.initial = snapshot(self.root, skip=('conf',))
         self._saved = os.path.join(self.root + '.save')
-        shutil.copytree(self.root, self._saved, symlinks=True, copy_function=shutil.copy2)
+        shutil.copytree(self.root, self._saved, symlinks=True, copy_function=_copy_entry)
 
     def reset(self):
         shutil.rmtree(self.root)
-        shutil.copytree(self._saved, self.root, symlinks=True, copy_function=shutil.copy2)
+        shutil.copytree(self._saved, self.root, symlinks=True, copy_function=_copy_entry)
 
     def cleanup(self):
         shutil.rmtree(self.root, ignore_errors=True)
